@@ -54,7 +54,8 @@ var repRoutes = map[string][]string{
 	"URI":       {"uri-value", "new", "ptype", "meta-new", "meta-uri", "in-variant"},
 	"URI0":      {"default", "meta-new", "ptype-generic"},
 	"URIH":      {},
-	"Timestamp": {"zone+1", "zone-7", "mixed-zones", "text", "int", "float", "value-text", "hash-tz", "meta-new"},
+	"Timestamp": {"zone+1", "zone-7", "mixed-zones", "text", "int", "float", "value-text", "hash-tz", "meta-new", "mono", "mono-zone", "meta-new-mono", "meta-new-mono-b", "meta-new-mono-c", "meta-new-mono-d"},
+	"TypeSet0":  {"again"},
 	"Timespan":  {"text", "int", "float", "hash", "meta-new"},
 	"Runtime":   {"text", "meta-new"},
 	"GoRuntime": {"rtype", "rvalue"},
@@ -146,6 +147,9 @@ func (t *T) buildRep(c px.Context) px.Type {
 			// taken out of a parsed Variant: the parser builds the member as part of a larger expression
 			return c.ParseType("Variant[Integer, URI[" + quoteP(s) + "]]").(*types.VariantType).Types()[1]
 		}
+	case "TypeSet0":
+		// a parsed TypeSet that nothing has resolved: its versions are absent (nil)
+		return c.ParseType(a[0])
 	case "URIH":
 		if t.R == "" {
 			return c.ParseType("URI[" + uriHashText(a) + "]")
@@ -227,15 +231,42 @@ func (t *T) buildRep(c px.Context) px.Type {
 				return "{string => " + quoteP(tm.In(cet).Format("2006-01-02T15:04:05.000000000")) + ", timezone => 'CET'}"
 			}
 			return two(h(lo, loMin), h(hi, hiMax))
-		case "meta-new":
+		case "mono", "mono-zone":
+			// bounds that carry a monotonic clock reading (not the two extremes: out of the range of a reading)
+			if loMin && hiMax {
+				return notApplicable(t)
+			}
+			ml, mh := lo, hi
+			if !loMin {
+				ml = monoTime(lo)
+			}
+			if !hiMax {
+				mh = monoTime(hi)
+			}
+			if t.R == "mono-zone" {
+				// In strips the reading: the twin without one, in other zones
+				ml, mh = ml.In(cet), mh.In(pdt)
+			}
+			return types.NewTimestampType(ml, mh)
+		case "meta-new", "meta-new-mono", "meta-new-mono-b", "meta-new-mono-c", "meta-new-mono-d":
+			// -b, -c, -d: the same construction again.  Two carriers of a monotonic reading differ by the jitter of two
+			// clock readings (a few ns, sometimes none): several copies make it all but certain that a tree which compares
+			// the readings is seen to answer differently for one description
+			// In, UTC and Local strip the reading: the carrier is used as it is, the plain route changes the zone
+			zone := func(tm time.Time, loc *time.Location) time.Time {
+				if t.R != "meta-new" {
+					return monoTime(tm)
+				}
+				return tm.In(loc)
+			}
 			var args []px.Value
 			if loMin {
 				args = append(args, types.WrapDefault())
 			} else {
-				args = append(args, types.WrapTimestamp(lo.In(pdt)))
+				args = append(args, types.WrapTimestamp(zone(lo, pdt)))
 			}
 			if !hiMax {
-				args = append(args, types.WrapTimestamp(hi.In(cet)))
+				args = append(args, types.WrapTimestamp(zone(hi, cet)))
 			}
 			return newOf(types.TimestampMetaType, args...)
 		}
@@ -528,7 +559,7 @@ func repFamily(all bool) []*V {
 	t0, t1 := "946684800:0", "978307200:0"
 	for i, b := range [][2]string{{"min", "max"}, {t0, "max"}, {"min", t1}, {t0, t1}, {t0, t0}, {"946684800:500000000", "max"}, {"946684800:1", "max"}, {"min", "946684800:1"},
 		{"0:0", "max"}, {"-1:0", "max"}, {"946684800:500000000", t1}, {t1, "max"}, {"min", t0}, {"946681200:0", "max"}, {"946688400:0", "max"}} {
-		add(i < 5, tRep("Timestamp", b[0], b[1]))
+		add(i < 7, tRep("Timestamp", b[0], b[1]))
 	}
 	// Timespan types: bounds in nanoseconds
 	for i, b := range [][2]string{{"min", "max"}, {"1000000000", "max"}, {"min", "5000000000"}, {"1000000000", "5000000000"}, {"1500000000", "5000000000"}, {"0", "max"}, {"1000000000", "1000000000"},
@@ -555,6 +586,27 @@ func repFamily(all bool) []*V {
 	}
 	for _, s := range []string{"Foo", "foo", "Bar", "Integer", "UnresolvedReference", "Foo::Bar", "Integer[1]"} {
 		add(true, tRep("TypeRef", s))
+	}
+	// TypeSets that nothing has resolved (absent versions), the same text twice, another name, other content
+	for _, s := range []string{"TypeSet[{pcore_version => '1.0.0', version => '1.0.0', name => 'C07::U1'}]", "TypeSet[{pcore_version => '1.0.0', version => '1.0.0', name => 'C07::U2'}]",
+		"TypeSet[{pcore_version => '1.0.0', version => '1.0.1', name => 'C07::U1', types => {A => Integer}}]", "TypeSet[{version => '1.0.0'}]"} {
+		add(true, tRep("TypeSet0", s))
+	}
+	// SemVer and SemVerRange values by their constructors; the absent version
+	for _, s := range []string{"1.0.0", "1.0.1", "1.0.0-rc1", "1.0.0+b1", "2.3.4-rc1+b2", "0.0.0", ""} {
+		d := vSemVer(s)
+		r = append(r, d)
+		for _, rt := range semVerRoutes {
+			r = append(r, d.withRoute(rt))
+		}
+	}
+	r = append(r, vArr(vSemVer("")), vHash(vSemVer(""), vInt(1)), vHash(vStr("a"), vSemVer("").withRoute("typeset-attr")), vArr(vSemVer("1.0.0").withRoute("typeset-attr")))
+	for _, s := range []string{"1.x", ">=1.0.0 <2.0.0", ">=1.0.0", "1.0.0", "<2.0.0", ">=1.0.0 <=2.0.0", "1.x || 2.x"} {
+		d := vSemVerRange(s)
+		r = append(r, d)
+		for _, rt := range semVerRangeRoutes {
+			r = append(r, d.withRoute(rt))
+		}
 	}
 	// one level down: in an array, as a hash key, as a hash value, in an entry
 	for _, t := range []*T{tRep("URI0"), tRep("URI", ""), tRep("URI", "").withRoute("ptype"), tRep("URI", "#").withRoute("new"), tRep("URI", "?").withRoute("meta-new"), tRep("URI", "http://example.com"),
@@ -700,4 +752,81 @@ func (ck *checker) uriCases(cfg *lib.Config) lib.CorrFile {
 	}
 	ck.res.Extra["uri_types_in_model"] = len(idx)
 	return cf.WriteTo(cfg.Out, "cases_uri")
+}
+
+// ---------------------------------------------------------------- SemVer and SemVerRange values by their constructors
+
+var semVerRoutes = []string{"new-string", "new-parts", "new-hash", "cast-range", "typeset-attr"}
+// (a range made from two versions - SemVerRange.new(min, max, exclude_max), semver.FromVersions - is not equal to the parsed
+// range with the same bounds and has another normalized text and key: consistent, the semver library's notion; no route)
+var semVerRangeRoutes = []string{"new-string"}
+
+func (v *V) buildVersionRoute(c px.Context) px.Value {
+	s := string(v.S)
+	if v.K == "SemVer" {
+		if v.R == "typeset-attr" {
+			// the attribute pcore_version of a TypeSet: absent while nothing has resolved the TypeSet, 1.0.0 afterwards
+			ts := c.ParseType("TypeSet[{pcore_version => '1.0.0', version => '1.0.0', name => 'C07::Attr'}]")
+			if s != "" {
+				ts = ts.(px.ResolvableType).Resolve(c)
+			}
+			r, _ := ts.(px.ReadableObject).Get("pcore_version")
+			return r
+		}
+		ver := semver.MustParseVersion(s)
+		q := func(x string) px.Value { return types.WrapString(x) }
+		switch v.R {
+		case "new-string":
+			return px.New(c, types.DefaultSemVerType(), q(s))
+		case "new-parts":
+			args := []px.Value{types.WrapInteger(int64(ver.Major())), types.WrapInteger(int64(ver.Minor())), types.WrapInteger(int64(ver.Patch()))}
+			if ver.PreRelease() != "" || ver.Build() != "" {
+				if ver.PreRelease() == "" {
+					panic("route not applicable")
+				}
+				args = append(args, q(ver.PreRelease()))
+			}
+			if ver.Build() != "" {
+				args = append(args, q(ver.Build()))
+			}
+			return px.New(c, types.DefaultSemVerType(), args...)
+		case "new-hash":
+			es := []*types.HashEntry{types.WrapHashEntry2("major", types.WrapInteger(int64(ver.Major()))), types.WrapHashEntry2("minor", types.WrapInteger(int64(ver.Minor()))),
+				types.WrapHashEntry2("patch", types.WrapInteger(int64(ver.Patch())))}
+			if ver.PreRelease() != "" {
+				es = append(es, types.WrapHashEntry2("prerelease", q(ver.PreRelease())))
+			}
+			if ver.Build() != "" {
+				es = append(es, types.WrapHashEntry2("build", q(ver.Build())))
+			}
+			return px.New(c, types.DefaultSemVerType(), types.WrapHash(es))
+		case "cast-range":
+			// a SemVer is a SemVer type with an exact range
+			return (*types.SemVer)(types.NewSemVerType(semver.ExactVersionRange(ver)))
+		}
+	} else {
+		rng := semver.MustParseVersionRange(s)
+		switch v.R {
+		case "new-string":
+			return px.New(c, types.DefaultSemVerRangeType(), types.WrapString(s))
+		case "new-bounds", "new-hash":
+			// only ranges of the form >=a <b or >=a <=b
+			var lo, hi string
+			var excl bool
+			if n, _ := fmt.Sscanf(s, ">=%s <=%s", &lo, &hi); n == 2 {
+				excl = false
+			} else if n, _ := fmt.Sscanf(s, ">=%s <%s", &lo, &hi); n == 2 {
+				excl = true
+			} else {
+				panic("route not applicable")
+			}
+			_ = rng
+			l, h := types.WrapSemVer(semver.MustParseVersion(lo)), types.WrapSemVer(semver.MustParseVersion(hi))
+			if v.R == "new-hash" {
+				return px.New(c, types.DefaultSemVerRangeType(), types.WrapHash([]*types.HashEntry{types.WrapHashEntry2("min", l), types.WrapHashEntry2("max", h), types.WrapHashEntry2("exclude_max", types.WrapBoolean(excl))}))
+			}
+			return px.New(c, types.DefaultSemVerRangeType(), l, h, types.WrapBoolean(excl))
+		}
+	}
+	panic("bad route " + v.R + " of " + v.K)
 }
